@@ -538,6 +538,27 @@ def build_records(ck, wd):
             ac = as_container(rng, c, "c") if kinds[2] == "explicit" else kinds[2]
             recs.append(lib_record(rid("e-" + tag), N, F, af, ap, ac, seed()))
 
+    # (lib-r) the same argument objects used again: edited in place between two calls (another valid
+    #         renaming, or something invalid) - each call must apply what it is given at that moment
+    for t in range(10 if q else 120):
+        N, F = random_cnf(rng, 5, 5)
+        N = max(N, 2)
+        f, p, c = rand_valid(rng, N, len(F))
+        for step in range(rng.randint(2, 4)):
+            recs.append(lib_record(rid("r%d" % step), N, F, f, p, (c if t % 2 else "fixed"), seed()))
+            how = rng.choice(("perm", "flip", "both", "invalid_perm", "invalid_flip"))
+            if how in ("perm", "both"):
+                rng.shuffle(p)
+            if how in ("flip", "both"):
+                k = rng.randrange(N)
+                f[k] = -f[k]
+            if how == "invalid_perm":
+                p[rng.randrange(N)] = p[(rng.randrange(N) + 1) % N]
+                if sorted(p) == list(range(1, N + 1)):
+                    p[0] = N + 1
+            if how == "invalid_flip":
+                f[rng.randrange(N)] = rng.choice((0, 2, -3))
+
     # ---- same seed twice / different seeds: only recorded, all judged the same way ----
 
     # ---- F. the cnfshuffle tool -------------------------------------------------
